@@ -87,7 +87,9 @@ Definition run_schema (s : sx) : sx :=
                let inside (an aa : bool) :=
                  jd_b f_finite an aa (S (goval_depth data)) data &&
                  (cleanr_b f_finite an aa orc dfs K n sch || (fits && cleang_b f_finite an orc dfs Kr R fuel sch data)) in
-               ofBool (inside false false || inside false true || inside true false || inside true true));
+               (* the theorems are about draft 4: both Swagger-mode options off *)
+               ofBool (negb (opt_array_must_have_items opts) && negb (opt_obj_array_type_check opts) &&
+                       (inside false false || inside false true || inside true false || inside true true)));
               (* is the case inside the class on which a verdict is proved to be returned with this fuel
                  (Schema/PipelineTermRec.v, decided by PipelineTermDec.v)? *)
               (let K := Nat.min fuel 48 in
